@@ -25,11 +25,12 @@ import SRVerif.Driver.C19Cycle
 import SRVerif.Driver.C12Cli
 import SRVerif.Driver.C15Draw
 import SRVerif.Driver.C12Bridge
+import SRVerif.Driver.C12Json
 
 open Lean SR.Drv
 
 def allHandlers : List (String × Handler) :=
-  C16.handlers ++ C16T.handlers ++ C18.handlers ++ Solve.handlers ++ C17.handlers ++ C19.handlers ++ C06.handlers ++ C20.handlers ++ C08.handlers ++ C13.handlers ++ C15.handlers ++ C11.handlers ++ C12.handlers ++ C05Any.handlers ++ C01Code.handlers ++ C02Code.handlers ++ C03Code.handlers ++ C11Newick.handlers ++ C19Cycle.handlers ++ C12Cli.handlers ++ C15Draw.handlers ++ C12Bridge.handlers
+  C16.handlers ++ C16T.handlers ++ C18.handlers ++ Solve.handlers ++ C17.handlers ++ C19.handlers ++ C06.handlers ++ C20.handlers ++ C08.handlers ++ C13.handlers ++ C15.handlers ++ C11.handlers ++ C12.handlers ++ C05Any.handlers ++ C01Code.handlers ++ C02Code.handlers ++ C03Code.handlers ++ C11Newick.handlers ++ C19Cycle.handlers ++ C12Cli.handlers ++ C15Draw.handlers ++ C12Bridge.handlers ++ C12Json.handlers
 
 def handleLine (line : String) : String :=
   match Json.parse line with
